@@ -18,11 +18,15 @@ package tea
 //@ ensures iff(result1 == nil, len(key) == 16) && iff(result0 != nil, result1 == nil)
 //@ canary ensures result1 != nil
 
+// the sum schedule: Encrypt runs rounds/2 cycles, adding delta once per cycle, and ends with
+// sum = (rounds/2) * delta mod 2^32 - the value Decrypt starts from and counts down to zero
 //@ func (*tea).Encrypt
 //@ props C12
 //@ nonnil t
 //@ may_panic_when len(src) < 8 || len(dst) < 8
 //@ modifies dst[0:8]
+//@ loop 1 invariant 0 <= i && implies(t.rounds >= 0, i <= t.rounds / 2) && sum == (i * 2654435769) % 4294967296
+//@ check_at "e.PutUint32(dst, v0)" implies(t.rounds >= 0, loopvar(1, sum) == ((t.rounds / 2) * 2654435769) % 4294967296)
 //@ canary ensures len(dst) == 0
 
 //@ func (*tea).Decrypt
@@ -30,4 +34,6 @@ package tea
 //@ nonnil t
 //@ may_panic_when len(src) < 8 || len(dst) < 8
 //@ modifies dst[0:8]
+//@ loop 1 invariant 0 <= i && implies(t.rounds >= 0, i <= t.rounds / 2 && sum == ((t.rounds / 2 - i) * 2654435769) % 4294967296)
+//@ check_at "e.PutUint32(dst, v0)" implies(t.rounds >= 0, loopvar(1, sum) == 0)
 //@ canary ensures len(dst) == 0
